@@ -680,7 +680,10 @@ func (db *DB) searchAll(o Object, field, operator string, value interface{}, con
 	fp := fieldPath(field)
 	searchType := search.valueTypeString()
 
-	for obj, err := iter.next(); err == nil && err != ErrEOI; obj, err = iter.next() {
+	// err must not be shadowed here, otherwise an unreadable
+	// object silently truncates the results
+	var obj Object
+	for obj, err = iter.next(); err == nil && err != ErrEOI; obj, err = iter.next() {
 		var test *indexedField
 		var value interface{}
 		var ok bool
